@@ -6,17 +6,18 @@ CFG = {
         "Leptos.Store.C16_notify_iff_related",
         "Leptos.Store.C16_notify_closed_form",
         "Leptos.Store.C16_root_first",
-        "Leptos.Store.C16_segment_collision_witness",
-        "Leptos.Store.C16_keys_stable_full_false",
         "Leptos.Store.C16_keys_stable_of_wf",
-        "Leptos.Store.C16_keys_stable_partial",
-        "Leptos.Store.C16_keys_boundary",
+        "Leptos.Store.C16_keys_stable",
+        "Leptos.Store.C16_segment_collision_witness",
+        "Leptos.Store.C16_keys_stable_old_false",
+        "Leptos.Store.C16_keys_stable_old_partial",
+        "Leptos.Store.C16_keys_boundary_old",
         "Leptos.Store.C16_wake_order_partial",
         "Leptos.Store.C16_wake_order_all_pairs_false",
         "Leptos.Store.C16_write_wakes_iff_related",
         "Leptos.Store.C16_run_subscribes",
         "Leptos.Store.C16_sees_written_value",
-        "Leptos.Store.C16_segment_collision_machine_witness",
+        "Leptos.Store.C16_segment_collision_machine_regression",
         "Leptos.Store.C16_index_write_wakes_cousin_witness",
         "Leptos.Store.C16_keyed_field_misses_root_witness",
         "Leptos.Store.C16_at_keyed_misses_parent_witness",
@@ -30,15 +31,15 @@ CFG = {
         "Leptos.Store.updateEntries_wf",
         "Leptos.Store.stable_of_wf",
         "Leptos.Store.reach_wf",
-        "Leptos.Store.wf_new_of_length_le_one",
+        "Leptos.Store.wf_new",
         "Leptos.Store.get_set_append",
         "Leptos.Store.get_set_same",
         "Leptos.Store.get_set_prefix",
         "Leptos.Store.get_set_unrelated",
-        "Leptos.Store.walk_fldChain",
-        "Leptos.Store.runEff_fld",
+        "Leptos.Store.walk_plainChain",
+        "Leptos.Store.runEff_plain",
         "Leptos.Store.notifyAll_noImm",
-        "Leptos.Store.writeVia_fld",
+        "Leptos.Store.writeVia_fldIdx",
     ],
     "harness_pkg": "hx-c16",
     "harness_bin": "c16",
@@ -66,11 +67,13 @@ CFG = {
                     "single thread; no nested keyed collections; key function = first field of the item"],
     "manifest": {
         "category": "proof",
-        "text": "Lean 4 theorems over all paths of unbounded depth: a write through a plain field path notifies a reader iff the two "
-                "paths are prefix-related, the notification list is ordered root first, a notified reader reads the written value; "
-                "FieldKeys segments stay stable and distinct for every history and every hash order iff the table starts from <= 1 key "
-                "(full statement refuted by a kernel-checked witness = F-C16-1); kernel-checked witnesses for five further defects of "
-                "AtIndex / AtKeyed / KeyedSubfield / Patch; tied to the code by a differential run of the real reactive_stores against the compiled model",
+        "text": "Lean 4 theorems over all paths of unbounded depth (struct fields, Option, indexed and keyed fields): a write "
+                "notifies a reader iff the two paths are prefix-related, the notification list is ordered root first, a notified "
+                "reader reads the written value; FieldKeys segments stay stable and distinct for every initial key list, every "
+                "history and every hash order (full, after repairs fix-c16-1/2/3 in /repo; the old code is kept as ...Old "
+                "definitions with kernel-checked regression witnesses); kernel-checked witnesses for three remaining defects of "
+                "Patch / key-table refresh / removed keys (known findings F-C16-4/5/6); tied to the code by a differential run of "
+                "the real reactive_stores against the compiled model",
         "design_ref": "DESIGN.md §7 C16",
         "note": "model hand-written, faithfulness checked by correspondence on generated histories; reactive_graph effects and the executor trusted as modelled",
         "technique": "Lean 4 proof (induction over paths / update histories, invariant) + refutation witnesses + differential correspondence",
